@@ -69,6 +69,89 @@ def apply_chain(chain, s):
     return s
 
 
+def key_values_are_never_folded(repo, rep):
+    """C07.R13: the canonical format folds *names* (host, namespace, class
+    name, key names); key *values* are data - a string key 'ACME:1' and
+    'acme:1' name different instances.  In the printers of CIMInstanceName
+    nothing derived from a keybinding value (including the URI text of a
+    nested reference, whose own names were already folded by the recursive
+    call) goes through lower() / casefold() / the local case() folding
+    function: otherwise from_wbem_uri(to_wbem_uri(p, 'canonical')) != p and
+    unequal paths get the same canonical URI."""
+    r13 = rep.rule('C07.R13', 'key values are never case-folded by the '
+                   'printers')
+    inm = repo.cls(OBJ, 'CIMInstanceName')
+    n = 0
+    for f in inm.methods.values():
+        # names bound to key values: d[key] of .keybindings, the second
+        # target of .keybindings.items(), values()
+        tainted = set()
+        folders = {g.name for g in ast.walk(f.node)
+                   if isinstance(g, ast.FunctionDef) and g is not f.node and
+                   any(isinstance(c, ast.Call) and
+                       isinstance(c.func, ast.Attribute) and
+                       c.func.attr in ('lower', 'casefold')
+                       for c in ast.walk(g))}
+        changed = True
+        while changed:
+            changed = False
+            for a in walk_no_nested(f.node):
+                new = None
+                if isinstance(a, ast.Assign) and len(a.targets) == 1 and \
+                        isinstance(a.targets[0], ast.Name):
+                    v = a.value
+                    if (isinstance(v, ast.Subscript) and
+                            'keybindings' in norm(v.value)) or any(
+                            isinstance(x, ast.Name) and x.id in tainted
+                            for x in ast.walk(v)):
+                        new = a.targets[0].id
+                elif isinstance(a, ast.For) and \
+                        'keybindings' in norm(a.iter):
+                    it = norm(a.iter)
+                    if it.endswith('.items()') and \
+                            isinstance(a.target, ast.Tuple) and \
+                            len(a.target.elts) == 2 and \
+                            isinstance(a.target.elts[1], ast.Name):
+                        new = a.target.elts[1].id
+                    elif it.endswith('.values()') and \
+                            isinstance(a.target, ast.Name):
+                        new = a.target.id
+                if new and new not in tainted:
+                    tainted.add(new)
+                    changed = True
+        if not tainted:
+            continue
+        n += 1
+        r13.sites += 1
+        r13.functions.add(f.fq)
+        for c in walk_no_nested(f.node):
+            if not isinstance(c, ast.Call):
+                continue
+            arg = None
+            if isinstance(c.func, ast.Attribute) and \
+                    c.func.attr in ('lower', 'casefold'):
+                arg = c.func.value
+            elif isinstance(c.func, ast.Name) and c.func.id in folders and \
+                    c.args:
+                arg = c.args[0]
+            if arg is None or not any(
+                    isinstance(x, ast.Name) and x.id in tainted
+                    for x in ast.walk(arg)):
+                continue
+            r13.ob(False, '%s|%s' % (f.qualname, norm(c, 50)))
+            rep.finding(r13, f.qualname, norm(c, 70), 'value-folded', OBJ,
+                        c.lineno,
+                        '%s case-folds text that comes from a keybinding '
+                        'value: string / char16 key values (also those '
+                        'inside a nested reference) are changed, so the '
+                        'printed URI no longer parses back to an equal path'
+                        % norm(c, 60))
+        r13.ob(True, f.qualname + ':scanned')
+    if n < 1:
+        raise AnalysisError('C07.R13: only %d CIMInstanceName methods handle '
+                            'key values' % n)
+
+
 def run(repo, rep, tier):
     r1 = rep.rule('C07.R1', 'from_wbem_uri raises only ValueError')
     r2 = rep.rule('C07.R2', 'printer alphabet inside parser language')
@@ -86,6 +169,7 @@ def run(repo, rep, tier):
     # format template already contains the (brace-carrying) key text makes
     # _format() raise KeyError / IndexError instead of the ValueError the
     # parser - and the CIMDateTime probe inside _kbstr_to_cimval - rely on
+    key_values_are_never_folded(repo, rep)
     from .c06 import datetime_layout_rule
     datetime_layout_rule(repo, rep, rep.rule(
         'C07.R12', 'a datetime key is printed in the 25-character layout '
